@@ -46,6 +46,29 @@ def generation_only(rep, pest):
                 rep.violation({"kind": "generate/compile", "grammar": g, "optimized": opt, "error": f"{type(e).__name__}: {e}"}, f"generated source for {g!r} (optimized={opt}) does not generate/compile/import: {type(e).__name__}: {e}")
     rep.extra["ill_formed_generation_only"] = n
     rep.evaluations += n
+    # deep nesting: the interpreter loads and runs these; the generated source must compile too
+    deep = {}
+    for op, shape in (("*", '({} ~ "b")*'), ("?", '({} ~ "b")?'), ("|", '({} | "b")'), ("+", '({} ~ "b")+'), ("{2}", '({} ~ "b"){{2}}'), ("&", '&({} ~ "b")'), ("PUSH", 'PUSH({} ~ "b")')):
+        for d in (8, 16, 20, 21, 24, 32):
+            e = '"a"'
+            for _ in range(d):
+                e = shape.format(e)
+            g = f"r = {{ {e} }}"
+            for opt in (False, True):
+                try:
+                    p = pest.Parser.from_grammar(g, optimizer=M.optimizer_for(pest) if opt else None)
+                    with M.watchdog(60):
+                        M.Generated(p.generate())
+                except Exception as e2:  # noqa: BLE001
+                    msg = f"{type(e2).__name__}: {e2}"
+                    if isinstance(e2, SyntaxError) and "too many statically nested blocks" in msg and d > 20 and op in ("*", "+"):
+                        # CPython allows 20 statically nested loops / with blocks in one function
+                        rep.known_finding("gen-nested-loops", f"{d} nested ({op}) groups, optimized={opt}: {msg[:120]}")
+                    else:
+                        rep.violation({"kind": "generate/compile", "grammar": g, "optimized": opt, "error": msg[:300]}, f"generated source for {d} nested '{op}' groups (optimized={opt}) does not generate/compile/import: {msg[:200]}")
+                deep[f"{op}x{d}"] = True
+    rep.extra["deep_nesting_probes"] = len(deep) * 2
+    rep.evaluations += len(deep) * 2
 
 
 def run(tier: str) -> int:
@@ -65,7 +88,9 @@ def run(tier: str) -> int:
             {"Family": "stack1", "MaxLen": 3, "Starts": "zero", "Sample": 0, "workers": 3, "style": "both"},
             {"Family": "stackdeep", "MaxLen": 3, "Starts": "zero", "Sample": 800, "workers": 3},
             {"Family": "tags", "MaxLen": 4, "Starts": "zero", "Sample": 250, "workers": 2},
-            {"Family": "names", "MaxLen": 3, "Starts": "zero", "Sample": 300, "workers": 2},
+            {"Family": "names", "MaxLen": 3, "Starts": "zero", "Sample": 400, "workers": 2},
+            {"Family": "trivfx", "MaxLen": 4, "Starts": "zero", "Sample": 300, "workers": 3},
+            {"Family": "ci", "MaxLen": 3, "Starts": "zero", "Sample": 150, "workers": 3},
             {"Family": "optsk", "MaxLen": 3, "Starts": "all", "Sample": 200, "workers": 3, "style": "min"},
             {"Family": "optinl", "MaxLen": 3, "Starts": "zero", "Sample": 150, "workers": 3, "style": "min"},
             {"Family": "optsq", "MaxLen": 3, "Starts": "zero", "Sample": 150, "workers": 3, "style": "min"},
@@ -82,6 +107,8 @@ def run(tier: str) -> int:
             {"Family": "stackdeep", "MaxLen": 4, "Starts": "zero", "Sample": 20000, "workers": 8},
             {"Family": "tags", "MaxLen": 4, "Starts": "all", "Sample": 0, "workers": 8},
             {"Family": "names", "MaxLen": 4, "Starts": "zero", "Sample": 0, "workers": 8},
+            {"Family": "trivfx", "MaxLen": 4, "Starts": "all", "Sample": 0, "workers": 8},
+            {"Family": "ci", "MaxLen": 3, "Starts": "zero", "Sample": 0, "workers": 8},
             {"Family": "optsk", "MaxLen": 4, "Starts": "all", "Sample": 0, "workers": 8, "style": "min"},
             {"Family": "optinl", "MaxLen": 4, "Starts": "zero", "Sample": 0, "workers": 8, "style": "min"},
             {"Family": "optsq", "MaxLen": 3, "Starts": "zero", "Sample": 0, "workers": 8, "style": "min"},
